@@ -154,6 +154,7 @@ type Exec struct {
 	harnessPkg *ssa.Package
 	inconclusive []string
 	assertsTotal int
+	viper map[string]IfaceV
 	pending []pendingAssert
 	known map[*Term]bool
 	regexps map[*Value]string
